@@ -200,6 +200,7 @@ namespace kit
     uint64_t idx = 0;
     bool case_nontrivial = false;
     int nviol = 0, nsamples = 0;
+    std::map<std::string,int> per_sig;
     std::vector<std::pair<std::string,std::string>> replay_violations; // in replay mode
     static std::vector<std::string> &counter_names() { static std::vector<std::string> n; return n; }
     static int counter_id(const std::string &name)
@@ -217,7 +218,9 @@ namespace kit
     void violation(const std::string &signature, const std::string &detail_json)
     {
       if (G().replay) { replay_violations.emplace_back(signature, detail_json); return; }
-      if (++nviol > 200) return;
+      ++nviol;
+      // cap per signature (not in total), so that a flood of one finding can never hide another one
+      if (++per_sig[signature] > 25) { fprintf(out, "{\"k\":\"violmore\",\"sig\":%s}\n", jstr(signature).c_str()); return; }
       fprintf(out, "{\"k\":\"viol\",\"suite\":%s,\"idx\":%llu,\"sig\":%s,\"detail\":%s}\n", jstr(suite).c_str(),
               static_cast<unsigned long long>(idx), jstr(signature).c_str(), detail_json.c_str());
       fflush(out);
